@@ -2,6 +2,7 @@ from typing import Dict, List
 
 import numpy as np
 
+from classy_blocks.construct.edges import Project
 from classy_blocks.construct.flat.face import Face
 from classy_blocks.construct.flat.sketches.disk import QuarterDisk
 from classy_blocks.construct.operations.loft import Loft
@@ -177,6 +178,21 @@ class EighthSphere(Shape):
     @property
     def center(self):
         return self.center_point
+
+    def copy(self):
+        """A copy projects to a sphere of its own: the geometry label is unique
+        to each object so the projections taken over from this one are renamed"""
+        shape = super().copy()
+        labels = {self.geometry_label: shape.geometry_label}
+
+        for operation in shape.operations:
+            operation.side_projects = [labels.get(label, label) for label in operation.side_projects]
+
+            for edge in (*operation.bottom_face.edges, *operation.top_face.edges, *operation.side_edges):
+                if isinstance(edge, Project):
+                    edge.label = [labels.get(label, label) for label in edge.label]
+
+        return shape
 
     @property
     def geometry(self):
